@@ -5,7 +5,7 @@ import os as _os
 if _os.environ.get('PWV_QUIET') == '1':
     try:
         import logging as _logging
-        _logging.lastResort = None          # children of real workers log expected tracebacks; keep check output readable
+        _logging.getLogger().addHandler(_logging.NullHandler())   # children of real workers log expected tracebacks; keep check output readable
     except Exception:  # noqa
         pass
 
